@@ -19,8 +19,9 @@ ASSUMPTIONS = [
     "StoSOO and StroquOOL read the time argument by design and are not part of this property",
     "rewards are open-loop sequences so that both runs see the same rewards",
 ]
-FLOOR = {"points_compared": {"quick": 100000, "thorough": 2500000}, "label_variants_run": {"quick": 600, "thorough": 12000},
-         "query_variants_run": {"quick": 200, "thorough": 4000}}
+FLOOR = {"points_compared": {"quick": 60000, "thorough": 480000},
+         "label_variants_run": {"quick": 350, "thorough": 2800},
+         "query_variants_run": {"quick": 200, "thorough": 1600}}
 WALL = {"quick": 1200, "thorough": 4 * 3600}
 LABELS = [{"kind": "offset", "t0": 0}, {"kind": "offset", "t0": 17}, {"kind": "offset", "t0": 10 ** 6}, {"kind": "double"},
           {"kind": "random", "seed": 1}]
